@@ -8,8 +8,8 @@ def implicit_aware_update_timestep(integrator: TableauIntegrator):
         # Adjust the timestep according to the computational cost of 
         # solving the nonlinear system at each timestep
         if integrator.solver_dict['niter0'] != 0 and integrator.solver_dict['niter1'] != 0:
-            Tk0, CTk0 = D.ar_numpy.log(integrator.solver_dict['tau0']), math.log(integrator.solver_dict['niter0'])
-            Tk1, CTk1 = D.ar_numpy.log(integrator.solver_dict['tau1']), math.log(integrator.solver_dict['niter1'])
+            Tk0, CTk0 = D.ar_numpy.log(D.ar_numpy.abs(integrator.solver_dict['tau0'])), math.log(integrator.solver_dict['niter0'])
+            Tk1, CTk1 = D.ar_numpy.log(D.ar_numpy.abs(integrator.solver_dict['tau1'])), math.log(integrator.solver_dict['niter1'])
             dnCTk = CTk1 - CTk0
             ddCTk = Tk1 - Tk0
             if ddCTk > 0:
